@@ -81,7 +81,7 @@ def self_validate(ctx, res, impl_tree=None, harness_pkg=None, order_free=None, m
     for the same nondet vector. Returns (validated, mismatches)."""
     by_pkg = {}
     for d in res["drivers"]:
-        if d["status"] != "holds" or not d.get("samples"):
+        if d["status"] != "holds" or not d.get("samples") or (d.get("_extra") and ctx.ws.endswith("/ws")):
             continue
         if order_free and re.search(order_free, d["name"]):
             continue
@@ -473,9 +473,11 @@ def hist(vals):
     return h
 
 
-def corpus_check(ctx, fam, build, K, extra_adv, level_extra, assumptions, floors, nlo=-1, nhi=3, stage1=False, second_pass=None, ref_tree="src", unbuildable_is_violation=False, batch=None):
+def corpus_run(ctx, fam, build, K, extra_adv, nlo=-1, nhi=3, stage1=False, second_pass=None, ref_tree="src", unbuildable_is_violation=False, batch=None):
+    """generate, compile, quarantine, run the engine on the pairs, replay; returns a dict"""
     corp = corpus.Corpus(ctx, fam)
-    corp.driver_bin = runner.build_driver(ctx)
+    corp.driver_bin = runner.build_driver(ctx) if not getattr(ctx, "driver_bin", None) else ctx.driver_bin
+    ctx.driver_bin = corp.driver_bin
     corp.stage1 = stage1
     counts = build(corp)
     corp.write(K, extra_adv, nlo, nhi, batch=batch)
@@ -507,7 +509,7 @@ def corpus_check(ctx, fam, build, K, extra_adv, level_extra, assumptions, floors
     args = engine_common(ctx)
     if ref_tree != "src":
         args = args + ["-refplain"]
-    res = runner.run_engine(ctx, pairs + args)
+    res = runner.run_engine(ctx, pairs + args, name="result_" + fam)
     new, known, replayed, mism, details = corpus.process_two_world(ctx, corp, res, ref_tree=ref_tree)
     # build clause (C07): optimised output does not type-check although the unoptimised stage does
     fe_details = []
@@ -522,50 +524,79 @@ def corpus_check(ctx, fam, build, K, extra_adv, level_extra, assumptions, floors
         else:
             new += 1
             path = runner.save_replay(ctx, "fe" + pid, [], {"property": ctx.pid, "program": "G" + pid, "kind": "front-end-refutation (not a solver verdict)",
-                                                           "what": "the optimised output does not type-check although the unoptimised stage output does", "error": msg,
+                                                           "what": "the generated output does not type-check although its reference (source / unoptimised stage) does", "error": msg,
                                                            "source": prog.source(K, extra_adv, nlo, nhi) if prog else ""})
             print("VIOLATION property=%s replay=%s" % (ctx.pid, path))
         fe_details.append({"program": "G" + pid, "error": msg, "known": bool(k), "tags": sorted(tags)})
+    second = None
     if second_pass:
         # single-world harness drivers inside the generated packages (e.g. YieldFrom form == range form)
         hargs = []
         for i in range(0, len(pairs), 2):
             hargs += ["-harness", pairs[i + 1].split("=")[1]]
-        res2 = runner.run_engine(ctx, hargs + ["-drivers", second_pass] + engine_common(ctx), name="result2")
-        n2, k2, r2, m2, d2 = 0, [], 0, 0, []
+        res2 = runner.run_engine(ctx, hargs + ["-drivers", second_pass] + engine_common(ctx), name="result2_" + fam)
         for d in res2["drivers"]:
             if d["status"] != "violated":
                 continue
             pkg_rel = "out/" + d["name"].rsplit(".", 1)[0].split("/")[-1]
-            sub = {"drivers": [d]}
-            a, b, c, e, f = process_harness(ctx, sub, pkg_rel, max_replay_per_driver=1)
-            n2 += a; k2 += b; r2 += c; m2 += e; d2 += f
-        new += n2; known += k2; replayed += r2; mism += m2; details += d2
+            a, b, c, e, f = process_harness(ctx, {"drivers": [d]}, pkg_rel, max_replay_per_driver=1)
+            new += a; known += b; replayed += c; mism += e; details += f
         agg2 = runner.summarize_engine(res2)
-        level_extra = dict(level_extra)
-        level_extra["second_pass"] = {k: agg2[k] for k in ("drivers", "drivers_holds", "drivers_violated", "drivers_undecided", "paths", "queries", "solver_time_s", "undecided_by_reason")}
-    decided_tags = {}
-    for d in res["drivers"]:
-        p = corp.programs.get(corp.pid_of_driver(d["name"]))
-        if p and d["status"] != "undecided":
-            for t in p.tags:
-                decided_tags[t] = decided_tags.get(t, 0) + 1
+        second = {k: agg2[k] for k in ("drivers", "drivers_holds", "drivers_violated", "drivers_undecided", "paths", "queries", "solver_time_s", "undecided_by_reason")}
+    return {"corp": corp, "res": res, "new": new, "known": known, "replayed": replayed, "mism": mism, "details": details,
+            "fe_details": fe_details, "counts": counts, "second": second, "ctx": ctx}
+
+
+def corpus_check(ctx, fam, build, K, extra_adv, level_extra, assumptions, floors, nlo=-1, nhi=3, stage1=False, second_pass=None, ref_tree="src",
+                 unbuildable_is_violation=False, batch=None, more_runs=()):
+    runs = [corpus_run(ctx, fam, build, K, extra_adv, nlo, nhi, stage1, second_pass, ref_tree, unbuildable_is_violation, batch)] + list(more_runs)
+    main = runs[0]
+    res = main["res"]
+    new, known, replayed, mism, details, fe_details = 0, [], 0, 0, [], []
+    decided_tags, programs, compiled, rejected, unbuildable = {}, 0, 0, {}, {}
+    sv_mism_extra, sv_extra = 0, 0
+    for i, r in enumerate(runs):
+        if i > 0:
+            res["drivers"] += r["res"]["drivers"]
+            for k, v in r["res"].get("functions_encoded", {}).items():
+                res["functions_encoded"][k] = res["functions_encoded"].get(k, 0) + v
+            res.setdefault("skipped_pairs", {}).update(r["res"].get("skipped_pairs") or {})
+            for d in r["res"]["drivers"]:
+                d["_extra"] = True
+            # self-validation of the extra run happens in its own workspace
+            a, b = self_validate(r["ctx"], r["res"], impl_tree="out", order_free=r"Gr_map")
+            sv_extra += a
+            sv_mism_extra += b
+        new += r["new"]; known += r["known"]; replayed += r["replayed"]; mism += r["mism"]; details += r["details"]; fe_details += r["fe_details"]
+        corp = r["corp"]
+        programs += len(corp.programs); compiled += len(corp.where)
+        rejected.update(corp.rejected); unbuildable.update(corp.unbuildable)
+        for d in r["res"]["drivers"]:
+            p = corp.programs.get(corp.pid_of_driver(d["name"]))
+            if p and d["status"] != "undecided":
+                for t in p.tags:
+                    decided_tags[t] = decided_tags.get(t, 0) + 1
+    mism += sv_mism_extra
     extra = {
-        "programs": len(corp.programs),
-        "programs_compiled": len(corp.where),
-        "programs_rejected_by_compiler": len(corp.rejected),
-        "programs_examined": len(corp.programs),
-        "programs_output_unbuildable": len(corp.unbuildable),
-        "rejected_samples": dict(list(corp.rejected.items())[:5]),
-        "rejected_by_message": hist(corp.rejected.values()),
-        "unbuildable_by_message": hist(corp.unbuildable.values()),
-        "unbuildable_samples": dict(list(corp.unbuildable.items())[:5]),
+        "programs": programs,
+        "programs_examined": programs,
+        "programs_compiled": compiled,
+        "programs_rejected_by_compiler": len(rejected),
+        "programs_output_unbuildable": len(unbuildable),
+        "rejected_samples": dict(list(rejected.items())[:5]),
+        "rejected_by_message": hist(rejected.values()),
+        "unbuildable_by_message": hist(unbuildable.values()),
+        "unbuildable_samples": dict(list(unbuildable.items())[:5]),
         "front_end_refutations": fe_details,
-        "corpus": counts,
-        "compile_s": round(corp.compile_s, 1),
+        "corpus": main["counts"],
+        "more_corpora": [r["counts"] for r in runs[1:]],
+        "compile_s": round(sum(r["corp"].compile_s for r in runs), 1),
         "feature_tags_decided": dict(sorted(decided_tags.items())),
+        "native_cross_checked_paths_extra_runs": sv_extra,
         "details": details[:30],
     }
+    if main["second"]:
+        extra["second_pass"] = main["second"]
     extra.update(level_extra)
     return finish(ctx, res, "translation_validation", new, known, replayed, mism, extra, assumptions, floors,
                   sv={"impl_tree": "out", "order_free": r"Gr_map"})
@@ -789,12 +820,23 @@ def plan_C04(ctx):
 
     extra = {
         "bounds": {"advances_K": K, "string_bytes": "length 0..%d, bytes fully symbolic" % ctx.q(3, 4), "slice/array/map/chan sizes": "<= 3, elements symbolic",
-                   "outside": "integer range (needs a go >= 1.22 module; the integer iterator itself is covered by C10); map iteration order (both worlds iterate in insertion order; native replay of map programs compares only that a difference exists); map insertion during iteration; unbuffered channels"},
+                   "integer_range": "n in [-2,3] symbolic, in a second workspace with go 1.22 sources",
+                   "outside": "map iteration order (both worlds iterate in insertion order; native replay of map programs compares only that a difference exists); map insertion during iteration; unbuffered channels"},
         "explanation": "reference = go/ssa's own lowering of the native range statement in the source (single evaluation, length snapshot, array copy) under coroutine semantics; implementation = generated loop over seq.New*Iter; flat log equality",
     }
+    # integer range needs go >= 1.22 sources: a second workspace whose go.mod says go 1.22
+    ctx22 = runner.SubCtx(ctx, "ws22", "1.22")
+
+    def build_int(corp):
+        ps = gen.c04_programs(only_int=True)
+        for p in ps:
+            corp.add(p)
+        return {"integer_range_programs": len(ps), "go_version": "1.22 (per-iteration loop variables: these programs capture no three-clause loop variable)"}
+
+    int_run = corpus_run(ctx22, "c04i", build_int, K, 0, nlo=-2, nhi=3)
     return corpus_check(ctx, "c04", build, K, 0, extra, [REF_ASSUMPTION, PROGRAM_DIM,
                         "string range / []rune(s) / utf8.DecodeRuneInString share one engine decoder; map range and reflect.MapIter share one insertion-ordered iterator"],
-                        floors={"drivers_holds": ctx.q(150, 200)})
+                        floors={"drivers_holds": ctx.q(150, 200)}, more_runs=[int_run])
 
 
 CLAIMED["C04"] = plan_C04
